@@ -129,13 +129,15 @@ const (
 	evMark      // A=user defined: phase markers
 	evShouldUpd // A=cur B=prev C=result
 	evCostFn    // A=val
+	evApplied   // A=keyhash B=val C=flag(0 new,1 delete,2 update,3 wait marker): the applier consumed this buffered item (sequential driver)
+	evPre       // A=key B=flags(1 resident, 2 pending as a new item) C=room; logged by the sequential driver before an op
 )
 
 var evNames = map[uint8]string{evSetCall: "Set?", evSetRet: "Set=", evGetCall: "Get?", evGetRet: "Get=", evDelCall: "Del?", evDelRet: "Del=",
 	evWaitCall: "Wait?", evWaitRet: "Wait=", evClearCall: "Clear?", evClearRet: "Clear=", evCloseCall: "Close?", evCloseRet: "Close=",
 	evOnExit: "OnExit", evOnEvict: "OnEvict", evOnReject: "OnReject", evIterCall: "Iter?", evIterVisit: "IterVisit", evIterRet: "Iter=",
 	evGetTTLCall: "GetTTL?", evGetTTLRet: "GetTTL=", evAdvance: "advance", evTick: "tick", evRemaining: "Remaining=", evMaxCost: "MaxCost=",
-	evUpdMax: "UpdateMaxCost", evMetrics: "metrics", evMark: "mark", evShouldUpd: "ShouldUpdate", evCostFn: "CostFn"}
+	evUpdMax: "UpdateMaxCost", evMetrics: "metrics", evMark: "mark", evShouldUpd: "ShouldUpdate", evCostFn: "CostFn", evPre: "pre", evApplied: "applied"}
 
 func fmtEvents(evs []vsched.Event) []string {
 	out := make([]string, 0, len(evs))
@@ -165,6 +167,7 @@ type cacheAPI interface {
 	Hash(key int) (uint64, uint64)
 	Dump() *Dump
 	Cells() (closed, maxCost unsafe.Pointer)
+	Account() (nkeys int, used, maxCost int64)
 }
 
 // Dump is the white-box state (taken only while every other thread is parked).
@@ -205,6 +208,7 @@ func (t *typedCache[K]) Hash(k int) (uint64, uint64)        { return ristretto.V
 func (t *typedCache[K]) Cells() (unsafe.Pointer, unsafe.Pointer) {
 	return ristretto.VerifClosedFlag(t.c), ristretto.VerifMaxCostCell(t.c)
 }
+func (t *typedCache[K]) Account() (int, int64, int64) { return ristretto.VerifAccount(t.c) }
 func (t *typedCache[K]) Dump() *Dump {
 	d := &Dump{}
 	d.Store = ristretto.VerifStore(t.c)
